@@ -1,10 +1,41 @@
 /-
-  Driver ops for C20.
+  Driver ops for C20: one line = one history over a policy set.
 -/
 import CedarGo.Driver.Ops.Core
+import CedarGo.Model.PolicySet
 namespace CedarGo.Driver
 open Lean CedarGo
 
-def c20Ops : List (String × Handler) := []
+/-- `pset`: run a history; policies are referred to by index into `policies` and identified in
+    `get` outputs by their `position.offset` -/
+def opPset : Handler := fun envs j => do
+  let pols ← (← jArr (← field j "policies")).mapM decPolicy
+  let ops ← jArr (← field j "ops")
+  let mut s : PS := []
+  let mut outs : List String := []
+  for o in ops do
+    match ← jArr o with
+    | [.str "add", i, k] =>
+      let id ← jHex i
+      let k ← jNat k
+      match pols[k]? with
+      | some p => let (s', b) := s.add id p; s := s'; outs := outs ++ [toString b]
+      | none => throw "bad policy index"
+    | [.str "remove", i] =>
+      let (s', b) := s.remove (← jHex i); s := s'; outs := outs ++ [toString b]
+    | [.str "get", i] =>
+      match s.get (← jHex i) with
+      | some p => outs := outs ++ [s!"p{p.position.offset}"]
+      | none => outs := outs ++ ["none"]
+    | [.str "ids"] => outs := outs ++ [",".intercalate (s.ids.map hex)]
+    | [.str "len"] => outs := outs ++ [toString s.length]
+    | [.str "authz", .str k] =>
+      match envs[k]? with
+      | some env => outs := outs ++ [showAuthz (authorize s env)]
+      | none => throw s!"unknown envref {k}"
+    | _ => throw "bad pset op"
+  .ok (";".intercalate outs)
+
+def c20Ops : List (String × Handler) := [("pset", opPset)]
 
 end CedarGo.Driver
